@@ -635,7 +635,7 @@ def growth_cases(quick):
         A["globals"].append({"name": "deep", "space": "storage_r", "group": "0", "binding": "0", "ty": {"k": "struct", "name": "Deep"}})
         A["entries"].append({"name": "main", "stage": "compute", "params": [], "wg": ["1"], "body": [{"k": "access", "g": "deep", "how": "addr"}]})
         cases.append(("nested-array-d%d" % d, A))
-    for d in (8, 16, 24, 34, 44):
+    for d in (8, 16, 24, 28):
         K = _base()
         K["consts"] = [{"name": "c0", "expr": "1.0f", "expect": "f32:3f800000"}] + [{"name": "c%d" % i, "expr": "array(c%d, c%d)" % (i - 1, i - 1), "nonscalar": True} for i in range(1, d)]
         K["entries"].append({"name": "main", "stage": "compute", "params": [], "wg": ["1"], "body": [{"k": "access", "g": "buf", "how": "load"}]})
